@@ -63,6 +63,14 @@ CHECKS = {
          "Seeded crash-free histories (commits, rollbacks, injected commit failures, occasional concurrency) followed by 8.5 simulated hours of transactions at the documented thresholds; oracle = raw audit: blob files == reachable blobs, registry entries == reachable logical ids, no .log/.plg/.cow files.",
          "Trusted: simulator, raw walker. Dangling inactive ids inside live handles are not counted as entries.",
          "7/C11"),
+ "C12": (EXPL, "deterministic simulation: create/abort/fail programs with injected faults, seeded interleavings of same-name creators, remove-and-recreate sequences; GetStores/OpenBtree/StoreInfo/dump oracle",
+         "Three program shapes (create+populate then commit/rollback/fail by an injected fault; 2-3 concurrent creators of one name under seeded schedules; create, populate, RemoveBtree, re-create with different options across restarts) judged through GetStores, OpenBtree, StoreInfo, Count and full dumps of warm and cold observers.",
+         "Trusted: simulator. Single-folder layout only (replicated layout is exercised by C27's machinery, not here).",
+         "7/C12"),
+ "C13": (EXPL, "deterministic simulation (single task): adversarial store names/descriptions x option combinations x commit histories, cold reopen; StoreInfo field-by-field comparison",
+         "Seeded store names/descriptions from an adversarial dictionary (metadata field names, JSON fragments, unicode, long), all option combinations, 1-12 commits with cold reopen; StoreInfo must equal the creation-time one in every creation option, Count and contents must equal the model.",
+         "Trusted: simulator, model. The harness inspects storeinfo.txt before opening a store so that a corrupted slot_length is reported instead of exhausting memory.",
+         "7/C13"),
 }
 
 NOT_APPLICABLE = {
